@@ -255,7 +255,7 @@ impl TextSelection {
         if self.begin() >= container.begin() {
             let beginaligned = self.begin() - container.begin();
             let containerlen = container.end() as isize - container.begin() as isize;
-            Some(containerlen - beginaligned as isize)
+            Some(beginaligned as isize - containerlen)
         } else {
             None
         }
@@ -267,7 +267,7 @@ impl TextSelection {
         if self.end() <= container.end() {
             let beginaligned = self.end() - container.begin();
             let containerlen = container.end() as isize - container.begin() as isize;
-            Some(containerlen - beginaligned as isize)
+            Some(beginaligned as isize - containerlen)
         } else {
             None
         }
@@ -396,6 +396,18 @@ impl TextSelection {
             self.begin + self.beginaligned_cursor(&offset.begin)?,
             self.begin + self.beginaligned_cursor(&offset.end)?,
         );
+        if end > self.end {
+            return Err(StamError::CursorOutOfBounds(
+                offset.end,
+                "End cursor is out of bounds (relative offset exceeds the text selection it is relative to)",
+            ));
+        } else if begin > end {
+            return Err(StamError::InvalidOffset(
+                offset.begin,
+                offset.end,
+                "End must be greater than begin",
+            ));
+        }
         Ok(TextSelection {
             intid: None,
             begin,
